@@ -205,8 +205,17 @@ func (a *array) rtype() reflect.Type  { return a.t.Type }
 
 // malloc is standard Go allocation of a block of memory - the plus side is that Go manages the memory
 func malloc(t Dtype, length int) []byte {
-	size := int(calcMemSize(t, length))
-	return make([]byte, size)
+	switch t.Kind() {
+	case reflect.Bool,
+		reflect.Int, reflect.Int8, reflect.Int16, reflect.Int32, reflect.Int64,
+		reflect.Uint, reflect.Uint8, reflect.Uint16, reflect.Uint32, reflect.Uint64, reflect.Uintptr,
+		reflect.Float32, reflect.Float64, reflect.Complex64, reflect.Complex128:
+		size := int(calcMemSize(t, length))
+		return make([]byte, size)
+	}
+	// elements that hold pointers (strings, unsafe pointers, ...) live in memory of their own type:
+	// the garbage collector does not look for pointers inside a []byte
+	return storage.AsByteSlice(reflect.MakeSlice(reflect.SliceOf(t.Type), length, length).Interface())
 }
 
 // calcMemSize calulates the memory size of an array (given its size)
